@@ -14,7 +14,7 @@ Open Scope N_scope.
 
 (** what the storing step needs of a level *)
 Definition lvl_store (c : cmd) : Prop :=
-  (forall a, In a (c_args c) -> a_takes_value a = true -> a_get_action a = ASet \/ a_get_action a = AAppend)
+  (forall a, In a (c_args c) -> a_takes_value a = true -> stores_given a)
   /\ (forall a, In a (c_args c) -> find_group c (a_id a) = None).
 
 Lemma lvl_store_of_wfc c : Totality.wfc c -> assert_app c = true -> lvl_store c.
@@ -24,7 +24,7 @@ Proof.
     unfold assert_arg in Haa. repeat (apply andb_true_iff in Haa as [Haa ?]).
     match goal with Hi : (vmax _ <=? vmax _) = true |- _ => rename Hi into HI end.
     unfold a_takes_value, r_takes_values in Ht. apply negb_true_iff, N.eqb_neq in Ht.
-    destruct (a_get_action a); auto; cbn in HI; apply N.leb_le in HI; exfalso; lia.
+    unfold stores_given. destruct (a_get_action a); auto; cbn in HI; apply N.leb_le in HI; exfalso; lia.
   - intros a Hin. destruct (find_group c (a_id a)) as [g|] eqn:Eg; [|reflexivity]. exfalso.
     unfold find_group in Eg. apply List.find_some in Eg. destruct Eg as [Hg Hb]. apply beq_eq in Hb.
     pose proof (Provenance.assert_app_groups_sane c Happ g Hg) as Hs. rewrite Hb, (W3 a Hin) in Hs. discriminate.
